@@ -1,0 +1,44 @@
+//! Verification hooks: forwarding wrappers around private functions of `rewriter.rs`
+//! (compiled only with `--cfg datadog_dd_native_iast_rewriter_js_verif`).
+use super::*;
+
+pub fn parse_program(code: String, file: &str) -> Result<Program> {
+    let compiler = Compiler::new(Arc::new(swc_common::SourceMap::new(
+        FilePathMapping::empty(),
+    )));
+    try_with_handler(compiler.cm.clone(), default_handler_opts(), |handler| {
+        let source_file = compiler
+            .cm
+            .new_source_file(Arc::new(FileName::Real(PathBuf::from(file))), code);
+        parse_js(&source_file, handler, &compiler)
+    })
+}
+
+pub fn chain_source_maps_hook(
+    source_map: &str,
+    original_map: &Option<SourceMap>,
+    config: &Config,
+) -> Option<String> {
+    chain_source_maps(source_map, original_map, config)
+}
+
+pub fn extract_source_map_hook<R: Read>(
+    code: String,
+    file: &str,
+    file_reader: &impl FileReader<R>,
+) -> Result<OriginalSourceMap> {
+    let compiler = Compiler::new(Arc::new(swc_common::SourceMap::new(
+        FilePathMapping::empty(),
+    )));
+    try_with_handler(compiler.cm.clone(), default_handler_opts(), |handler| {
+        let source_file = compiler
+            .cm
+            .new_source_file(Arc::new(FileName::Real(PathBuf::from(file))), code);
+        parse_js(&source_file, handler, &compiler)
+            .map(|_| extract_source_map(file, compiler.comments(), file_reader))
+    })
+}
+
+pub fn source_map_url_marker() -> &'static str {
+    SOURCE_MAP_URL
+}
